@@ -33,7 +33,7 @@ ASSUMPTIONS = [
     "FilePool is given paths of existing files (or modes that create them); a failing open() is outside the statement",
 ]
 BASE_CASES = {"quick": 520, "thorough": 16000}
-NCASES = {"quick": 640, "thorough": 19200}
+NCASES = {"quick": 1000, "thorough": 24000}
 NSHARDS = 16
 SHARD_TIMEOUT = {"quick": 300, "thorough": 3600}
 MOD = "vf.checks.c20"
